@@ -390,7 +390,6 @@ def negedge_case(d):
     from amaranth.sim import Simulator
     spec = make_spec(d)
     try:
-        from amaranth.hdl import Module
         sysm = spec.build(clk_edge="neg")
         Simulator(sysm.frag)
     except DomainRequirementFailed:
